@@ -9,10 +9,13 @@
 pub mod codecs;
 pub mod explore;
 pub mod fixture;
+pub mod kdispatch;
+pub mod kmers;
 pub mod model;
 pub mod rec;
 pub mod run;
 pub mod spec;
 
 pub use codecs::*;
+pub use kmers::{dispatch_k, k_set, max_k, KVisitor, Sid, Store};
 pub use run::{main_loop, Out, Tier};
